@@ -1,4 +1,5 @@
 import CV.Proofs.RangeReject
+import CV.Proofs.RangeBatch
 /-!
 # C09 — Impossible symbols are rejected and leave the range encoder intact (component `range`)
 
@@ -51,6 +52,19 @@ theorem C09_range_roundtrip_after_rejections {Sym : Type} {c : Cfg} (hc : RValid
       d.maybeExhausted c = .ok true :=
   roundtrip_after_rejections hc xs hn hv
 
+/-- **batch forms** (`encode_symbols`, `try_encode_symbols`, `encode_iid_symbols`): after a
+    successful prefix, an `Err` item of the iterator or an impossible symbol stops the batch,
+    the error is reported, and the encoder is exactly the one the prefix left — nothing of the
+    failing item or of the rest has touched it -/
+theorem C09_range_batch_partway_keeps_prefix {Sym : Type} (c : Cfg) (pre : List (Sym × Model Sym))
+    (e ePre : Encoder) (h : encodeSymbols c e (pre.map some) = (ePre, .ok ()))
+    (rest : List (Option (Sym × Model Sym))) :
+    encodeSymbols c e (pre.map some ++ none :: rest) = (ePre, .error .model) ∧
+    ∀ s m, m.enc s = none →
+      encodeSymbols c e (pre.map some ++ some (s, m) :: rest)
+        = (ePre, .error (.coding .impossible)) :=
+  encodeSymbols_partway c pre e ePre h rest
+
 /-! non-vacuity: symbol 0 of `cutModel 0 3 4`-style models has an empty interval; symbol 7 is
 outside every `cutModel`; rejected while the encoder holds back a word -/
 example : (cutModel 127 129 256).enc 7 = none := rfl
@@ -72,3 +86,4 @@ end CV.Range
 #print axioms CV.Range.C09_range_impossible_iff
 #print axioms CV.Range.C09_range_attempts_erasure
 #print axioms CV.Range.C09_range_roundtrip_after_rejections
+#print axioms CV.Range.C09_range_batch_partway_keeps_prefix
